@@ -12,6 +12,8 @@
 #include "hep/mc-mpi.hpp"
 
 #include <cmath>
+#include <cstdio>
+#include <cstdlib>
 #include <iostream>
 #include <limits>
 #include <sstream>
@@ -121,14 +123,27 @@ struct SimCore
         Plan const& p = *plan;
         std::size_t const n = x.size();
 
-        if (!c.log_calls && weight_is_free && p.fk == F_CONST && proj == nullptr)
+        if (!c.log_calls && weight_is_free && (p.fk == F_CONST || (p.fk == F_SIGN && n == 1 && p.fmag == 0)) &&
+            proj == nullptr)
         {
-            // volume runs (up to 2^31 calls): constant integrand, nothing but the cheap statistics
+            // volume runs (2^24 .. 2^32 calls): constant or linear integrand, nothing but the cheap
+            // statistics
             IterStat& st = c.stats[c.cur_iter];
-            ++st.nz;
-            ++st.fin;
-            long double const zero = 0;
-            T const f = static_cast<T>(script_value(p, &zero, 1, 0, 0));   // the constant of the script
+            T f;
+            if (p.fk == F_CONST)
+            {
+                long double const zero = 0;
+                f = static_cast<T>(script_value(p, &zero, 1, 0, 0));   // the constant of the script
+            }
+            else
+            {
+                f = static_cast<T>(2.0L * static_cast<long double>(x[0]) - 1.0L);   // what F_SIGN gives in one dimension
+            }
+            if (f != T())
+            {
+                ++st.nz;
+                ++st.fin;
+            }
             r.f = f;
             return f;
         }
@@ -176,6 +191,20 @@ struct SimCore
                 }
                 c.calls.back().f = 0;
                 return T();
+            }
+            else if (pk == POISON_HUGE)
+            {
+                // a finite value whose product with the weight is not finite
+                T const ww = point.weight();
+                ask = true;
+                if (std::isfinite(ww) && ww > T(1))
+                {
+                    f = (mix2(h, 77) & 1) ? std::numeric_limits<T>::max() : std::numeric_limits<T>::lowest();
+                }
+                else
+                {
+                    f = std::numeric_limits<T>::quiet_NaN();
+                }
             }
             else if (pk == POISON_NAN) f = std::numeric_limits<T>::quiet_NaN();
             else if (pk == POISON_PINF) f = std::numeric_limits<T>::infinity();
@@ -320,6 +349,39 @@ struct MultiMap
     Plan const* plan = nullptr;
     ChannelMap const* cmap = nullptr;
 
+    // densities together with the coordinates: only where no fault needs to know the integrand's
+    // verdict about the point first (weight poison is decided when the integrand runs)
+    bool early_mode(Ctx const& c) const
+    {
+        if (!cmap->early) return false;
+        if (c.poison_mask & (POISON_WEIGHT | POISON_HUGE)) return false;
+        for (auto const& f : c.poison_calls)
+        {
+            if (f.c == POISON_WEIGHT) return false;
+        }
+        return true;
+    }
+
+    void fill_densities(Ctx const& c, long double const* x, std::vector<std::size_t> const& enabled,
+        std::vector<T>& dens, bool wpoison, int how) const
+    {
+        for (std::size_t j = 0; j != dens.size(); ++j) dens[j] = T();
+
+        for (std::size_t j : enabled)
+        {
+            long double d = cmap->jac * cmap->density(static_cast<std::uint32_t>(j), x);
+            if (wpoison && how == 0) d = 0;   // zero density sum
+            dens[j] = static_cast<T>(d);
+        }
+
+        // some maps have points at which one channel's density is infinite (an integrable
+        // singularity hit exactly): the weight is then exactly zero and the evaluation counts as zero
+        if (cmap->singular && !wpoison && (mix2(c.sum_u, 31) % 16) == 0 && !enabled.empty())
+        {
+            dens[enabled[mix2(c.sum_u, 32) % enabled.size()]] = std::numeric_limits<T>::infinity();
+        }
+    }
+
     T operator()(std::size_t channel, std::vector<T> const& rn, std::vector<T>& coords,
         std::vector<std::size_t> const& enabled, std::vector<T>& dens, hep::multi_channel_map action)
     {
@@ -367,6 +429,14 @@ struct MultiMap
             c.addr_d = &dens;
             c.sum_u = checksum(rn);
             c.sum_c = checksum(coords);
+
+            if (early_mode(c))
+            {
+                for (std::size_t i = 0; i != n; ++i) x[i] = static_cast<long double>(static_cast<T>(x[i]));
+                fill_densities(c, x, enabled, dens, false, 0);
+                c.sum_d = checksum(dens);
+            }
+
             return static_cast<T>(cmap->jac);
         }
 
@@ -384,7 +454,7 @@ struct MultiMap
         if (c.addr_u != &rn || c.addr_c != &coords || c.addr_d != &dens) c.note("densities-other-buffers");
         if (c.sum_u != checksum(rn)) c.note("densities-random-numbers-changed");
         if (c.sum_c != checksum(coords)) c.note("densities-coordinates-changed");
-        if (r.dens_calls != 0 && c.sum_d != checksum(dens)) c.note("densities-buffer-changed");
+        if ((r.dens_calls != 0 || early_mode(c)) && c.sum_d != checksum(dens)) c.note("densities-buffer-changed");
 
         // densities at the point the coordinates request produced (recomputed from the random numbers:
         // the coordinate vector may be shorter than the random number vector)
@@ -399,21 +469,8 @@ struct MultiMap
         std::uint32_t off = static_cast<std::uint32_t>(c.arena.size());
         if (r.dens_calls == 0) r.off_d = off;
 
-        for (std::size_t j = 0; j != dens.size(); ++j) dens[j] = T();
-
-        for (std::size_t j : enabled)
-        {
-            long double d = cmap->jac * cmap->density(static_cast<std::uint32_t>(j), x);
-            if (wpoison && how == 0) d = 0;   // zero density sum
-            dens[j] = static_cast<T>(d);
-        }
-
-        // some maps have points at which one channel's density is infinite (an integrable
-        // singularity hit exactly): the weight is then exactly zero and the evaluation counts as zero
-        if (cmap->singular && !wpoison && (mix2(c.sum_u, 31) % 16) == 0 && !enabled.empty())
-        {
-            dens[enabled[mix2(c.sum_u, 32) % enabled.size()]] = std::numeric_limits<T>::infinity();
-        }
+        // (a map that wrote the densities with the coordinates leaves the buffer alone now)
+        if (!early_mode(c)) fill_densities(c, x, enabled, dens, wpoison, how);
 
         if (wpoison && how == 1) jac = std::numeric_limits<T>::infinity();
         if (wpoison && how == 2) jac = std::numeric_limits<T>::quiet_NaN();
@@ -978,6 +1035,12 @@ public:
                 for (T a : r.adjustment_data()) rv.adj.push_back(a);
                 if (!assembled_ && r.adjustment_data().size() == rv.pbins * rv.pdims && rv.pbins >= 2)
                 {
+                    if (std::getenv("HEPSIM_DUMP"))
+                    {
+                        std::fprintf(stderr, "refine alpha=%La bins=%llu dims=%llu\n", (long double) vc_->alpha(), (unsigned long long) rv.pbins, (unsigned long long) rv.pdims);
+                        for (ld x : rv.pdf) std::fprintf(stderr, "g %La\n", x);
+                        for (ld x : rv.adj) std::fprintf(stderr, "d %La\n", x);
+                    }
                     u64 b, d;
                     view_pdf(hep::vegas_refine_pdf(r.pdf(), vc_->alpha(), r.adjustment_data()),
                         rv.refined, b, d);
